@@ -271,6 +271,10 @@ def check(args):
             report.harness_errors.append(f"stalled case could not be re-run: {status} {err}")
     # ---- triage
     for sig, v in sorted(first_by_sig.items())[:12]:
+        if report.match_known(sig) is not None:
+            # a recorded finding: nothing to shrink or to confirm again on every run
+            report.add(sig, "-", summarize(v))
+            continue
         if sig[-1] == "hang" or (sig[0] == "time" and v["out"].get("cpu", 0) > 5):
             # established by the run itself (a stalled case was already re-run alone); shrinking would re-run it many times
             path = core.write_replay(PROP, f"hang-{core.digest(v['case'])}", {"property": PROP, "case": v["case"], "sig": list(sig), "violation": v["out"]})
